@@ -175,47 +175,43 @@ AcctOK(f) ==
 (* -------------------------------------------------------- bounded exhaustive specification *)
 VARIABLES f,        \* file-layer state
           m,        \* abstract map
-          tail,     \* [id, prev]: the last record on disk was appended by the latest Store(id,..), prev = m[id] before
-          seen      \* ghost (cause tracking, as-found design only): per id the lists stored since the last Reset
-vars == <<f, m, tail, seen>>
+          tail      \* [id, prev]: the last record on disk was appended by the latest Store(id,..), prev = m[id] before
+vars == <<f, m, tail>>
 
-NoneSeen == [i \in Ids |-> {}]
-Init == f = FEmpty /\ m = AllNone /\ tail = NoTail /\ seen = NoneSeen
+Init == f = FEmpty /\ m = AllNone /\ tail = NoTail
 
 \* Known finding "invalidate-then-reopen" (design with PersistInvalidate = FALSE only): a record that
 \* was invalidated in memory comes back when the file is loaded again.  The abstract map follows the
-\* resurrection ONLY for an id that should read None and reads a list that was stored for this very id
-\* since the last Reset; every other difference stays a MapRefinement violation.
-KnownResurrect(want, g, i) ==
-    ~PersistInvalidate /\ g.ok /\ want[i] = None /\ Read(g, i) \in seen[i]
-Resync(want, g) == [i \in Ids |-> IF KnownResurrect(want, g, i) THEN Read(g, i) ELSE want[i]]
+\* resurrection ONLY for an id that should read None and reads the list of a dead record of this very
+\* id that was still in the file before the load; every other difference stays a MapRefinement violation.
+KnownResurrect(want, old, g, i) ==
+    /\ ~PersistInvalidate /\ g.ok /\ want[i] = None
+    /\ \E j \in 1 .. Len(old.disk) : old.disk[j].id = i /\ old.disk[j].list = Read(g, i)
+Resync(want, old, g) == [i \in Ids |-> IF KnownResurrect(want, old, g, i) THEN Read(g, i) ELSE want[i]]
 
 Store(id, L) ==
     /\ f.ok
     /\ f' = FStore(f, id, L, RecLen[L], PersistInvalidate)
     /\ m' = AStore(m, id, L)
     /\ tail' = [id |-> id, prev |-> m[id]]
-    /\ seen' = IF PersistInvalidate THEN seen ELSE [seen EXCEPT ![id] = @ \cup {L}]
 Invalidate(S) ==
     /\ f.ok
     /\ f' = FInvalidate(f, S, PersistInvalidate)
     /\ m' = AInvalidate(m, S)
     /\ tail' = NoTail
-    /\ UNCHANGED seen
 Reset ==
     /\ f.ok
-    /\ f' = FReset(f) /\ m' = AReset(m) /\ tail' = NoTail /\ seen' = NoneSeen
+    /\ f' = FReset(f) /\ m' = AReset(m) /\ tail' = NoTail
 Reopen ==
     /\ f.ok
     /\ f' = FReopen(f, TolerantLoad)
-    /\ m' = Resync(AReopen(m), f')
-    /\ UNCHANGED <<tail, seen>>
+    /\ m' = Resync(AReopen(m), f, f')
+    /\ UNCHANGED tail
 TruncateAndReopen(partial) ==
     /\ f.ok /\ tail # NoTail
     /\ f' = FTruncate(f, partial, TolerantLoad)
-    /\ m' = Resync(ATruncate(m, tail, ReadMap(f')), f')
+    /\ m' = Resync(ATruncate(m, tail, ReadMap(f')), f, f')
     /\ tail' = NoTail
-    /\ UNCHANGED seen
 
 Next ==
     \/ \E id \in Ids, L \in Lists : Store(id, L)
@@ -231,6 +227,8 @@ Bounded == Len(f.disk) <= MaxRecs                 \* CONSTRAINT
 \* record sizes of the exhaustive configuration: a minimal record, a small one and a "huge" one;
 \* two invalidated huge records cross MinFree = 16000 and half of the file
 MCRecLen == [L \in Lists |-> CASE L = "A" -> 12 [] L = "B" -> 40 [] OTHER -> 9000]
+\* record sizes the generator steers with: small lists, and "H" = one chunk of 9 MiB
+GenRecLen == [L \in Lists |-> IF L = "H" THEN 9437200 ELSE 64]
 
 TypeOK ==
     /\ m \in [Ids -> Lists \cup {None}]
